@@ -191,7 +191,7 @@ func (m *c06M) arm(fault, key string) {
 	if fault == "none" {
 		return
 	}
-	if !m.w.Env.Pad(40) {
+	if !m.w.Env.Pad(m.w.Nodes, 15) {
 		m.w.Abort("padding PING failed")
 	}
 	if fault == "outage" {
@@ -609,9 +609,9 @@ func c06Res(err error, out c06Row, nf error) string {
 	return "error(" + err.Error() + ")"
 }
 
-// c06DrawFault: most operations run on a healthy store.
-func c06DrawFault(t *rapid.T, kinds ...string) string {
-	if rapid.IntRange(0, 5).Draw(t, "faulty") != 0 {
+// c06DrawFault: most operations run on a healthy store (1 in every+1 is hit by a fault).
+func c06DrawFault(t *rapid.T, every int, kinds ...string) string {
+	if rapid.IntRange(0, every).Draw(t, "faulty") != 0 {
 		return "none"
 	}
 	return rapid.SampledFrom(kinds).Draw(t, "fault")
@@ -634,7 +634,7 @@ func TestVerifC06CacheMachine(t *testing.T) {
 			"read": func(t *rapid.T) {
 				m.read(key.Draw(t, "key"), rapid.IntRange(0, 3).Draw(t, "api"),
 					rapid.IntRange(0, 7).Draw(t, "dbFail") == 0,
-					c06DrawFault(t, kit.KGet, kit.KSet, kit.KSetNX, "outage"))
+					c06DrawFault(t, 5, kit.KGet, kit.KSet, kit.KSetNX, "outage"))
 			},
 			"readAgain": func(t *rapid.T) { // a second read of a key that was just read: must be served from the cache
 				k := key.Draw(t, "key")
@@ -642,7 +642,7 @@ func TestVerifC06CacheMachine(t *testing.T) {
 				m.read(k, rapid.IntRange(0, 3).Draw(t, "api"), rapid.Bool().Draw(t, "dbFail"), "none")
 			},
 			"get": func(t *rapid.T) {
-				m.get(key.Draw(t, "key"), rapid.Bool().Draw(t, "ctx"), c06DrawFault(t, kit.KGet, "outage"))
+				m.get(key.Draw(t, "key"), rapid.Bool().Draw(t, "ctx"), c06DrawFault(t, 6, kit.KGet, "outage"))
 			},
 			"write": func(t *rapid.T) {
 				n := rapid.IntRange(1, 3).Draw(t, "nkeys")
@@ -653,7 +653,7 @@ func TestVerifC06CacheMachine(t *testing.T) {
 					del[ki] = rapid.IntRange(0, 3).Draw(t, "deleteRow") == 0
 					names[ki] = rapid.SampledFrom([]string{"a", "b", "c"}).Draw(t, "name")
 				}
-				fault := c06DrawFault(t, kit.KDel, kit.KDel, "outage")
+				fault := c06DrawFault(t, 12, kit.KDel, kit.KDel, "outage")
 				fk := kis[rapid.IntRange(0, len(kis)-1).Draw(t, "faultKey")]
 				m.invalidate(kis, func(ki int) string {
 					if del[ki] {
@@ -667,7 +667,7 @@ func TestVerifC06CacheMachine(t *testing.T) {
 			},
 			"del": func(t *rapid.T) {
 				kis := c06Distinct(t, rapid.IntRange(1, 3).Draw(t, "nkeys"))
-				m.invalidate(kis, nil, rapid.Bool().Draw(t, "ctx"), c06DrawFault(t, kit.KDel, "outage"), kis[0])
+				m.invalidate(kis, nil, rapid.Bool().Draw(t, "ctx"), c06DrawFault(t, 12, kit.KDel, "outage"), kis[0])
 			},
 			"set": func(t *rapid.T) {
 				ki := key.Draw(t, "key")
@@ -676,7 +676,7 @@ func TestVerifC06CacheMachine(t *testing.T) {
 					v = c06Row{ID: int64(ki), Name: "set", Ver: 1000 + rapid.Int64Range(0, 2).Draw(t, "v")}
 				}
 				m.set(ki, v, rapid.IntRange(0, 3).Draw(t, "api"), rapid.SampledFrom(c06SetExpires).Draw(t, "expire"),
-					c06DrawFault(t, kit.KSet, "outage"))
+					c06DrawFault(t, 6, kit.KSet, "outage"))
 			},
 			"forward": func(t *rapid.T) {
 				var ms int64
@@ -978,7 +978,7 @@ func TestVerifC06CleanerRetry(t *testing.T) {
 				return
 			}
 		}
-		env.Pad(40)
+		env.Pad(s.nodes, 15)
 		if s.outage {
 			env.Outage(true)
 		} else {
